@@ -124,6 +124,10 @@ def gen_invocation(rng, idx):
     prefix = []
     if rng.random() < 0.4: prefix.append('target: "custom::target"')
     if rng.random() < 0.25: prefix.append('parent: None::<tracing::span::Id>' if False else 'parent: None')
+    # after a `target:` / `parent:` / `name:` prefix the macros have no arm for a LONE bare identifier (it is read as a format
+    # string and rejected at compile time): write the shorthand out
+    if prefix and len(fields) == 1 and fields[0].lstrip('%?') in IDENT_NAMES:
+        fields[0] = '%s = %s' % (fields[0].lstrip('%?'), fields[0])
     body = ', '.join(fields)
     if kind == 'e':
         if rng.random() < 0.4 and 'name:' not in ' '.join(prefix):
